@@ -182,7 +182,26 @@ func c06CheckRoute(o *vOut, where string, p *table.Path, m *c06Msg, detail map[s
 	if seen[bgp.BGP_ATTR_TYPE_ORIGIN] == 0 || seen[bgp.BGP_ATTR_TYPE_AS_PATH] == 0 || (v4 && seen[bgp.BGP_ATTR_TYPE_NEXT_HOP] == 0) {
 		o.fail("route-installed-without-mandatory-attribute:"+where, detail)
 	}
-	if c06IsMarked(p) || m.framing {
+	if c06IsMarked(p) {
+		return
+	}
+	// AS_PATH must fit the peer type (RFC 5065): no confederation segment, at ANY position, in a route
+	// learned from a plain eBGP peer; CONFED_SEQ first in one learned from a confederation peer.
+	// (With an AS4_PATH in the message the path is rebuilt by the 4-octet-AS merge: not judged.)
+	if ap := p.GetAsPath(); ap != nil && m.count(17) == 0 && !m.framing {
+		if m.peer == 0 {
+			for _, sg := range ap.Value {
+				if t := sg.GetType(); t == bgp.BGP_ASPATH_ATTR_TYPE_CONFED_SEQ || t == bgp.BGP_ASPATH_ATTR_TYPE_CONFED_SET {
+					o.fail("route-installed-with-confed-segment-from-ebgp-peer:"+where, detail)
+					break
+				}
+			}
+		}
+		if m.peer == 2 && (len(ap.Value) == 0 || ap.Value[0].GetType() != bgp.BGP_ASPATH_ATTR_TYPE_CONFED_SEQ) {
+			o.fail("route-installed-without-leading-confed-seq-from-confed-peer:"+where, detail)
+		}
+	}
+	if m.framing {
 		return
 	}
 	for i := range m.attrs {
@@ -462,6 +481,21 @@ func TestVerifC06Server(t *testing.T) {
 		}
 		m4.faults = []c06Fault{{"len:3", c06Withdraw, 3}, {"unknown-wellknown", c06Reset, -1}}
 		runCase(m4, true, true, "corpus")
+		// plain eBGP peer, AS_PATH = SEQ{65001} CONFED_SEQ{65100} / SEQ SET CONFED_SET: confederation segment not at the head
+		for k, ap := range [][]byte{
+			{2, 1, 0, 0, 0xfd, 0xe9, 3, 1, 0, 0, 0xfe, 0x4c},
+			{2, 1, 0, 0, 0xfd, 0xe9, 1, 1, 0, 0, 0xfd, 0xea, 4, 1, 0, 0, 0xfe, 0x4c},
+			{2, 1, 0, 0, 0xfd, 0xe9, 3, 1, 0, 0, 0xfe, 0x4c, 2, 1, 0, 0, 0xfd, 0xeb},
+		} {
+			m5 := &c06Msg{peer: 0, nlri: [][]byte{{24, 10, 99, byte(5 + k)}}}
+			m5.attrs = []c06Attr{
+				{typ: 1, flags: 0x40, val: []byte{0}, decl: -1},
+				{typ: 2, flags: 0x40, val: ap, decl: -1, tag: "segment-kind"},
+				{typ: 3, flags: 0x40, val: []byte{10, 0, 0, 1}, decl: -1},
+			}
+			m5.faults = []c06Fault{{"aspath-confed-last", c06Withdraw, 2}}
+			runCase(m5, true, true, "corpus")
+		}
 	}
 
 	n := 2500
@@ -474,6 +508,9 @@ func TestVerifC06Server(t *testing.T) {
 		m := c06Gen(r, peer, nf)
 		revised := !r.chance(20)
 		o.stat(fmt.Sprintf("faults_%d", nf), 1)
+		if m.shape != "" {
+			o.stat("aspath_segments_"+m.shape+"_"+[]string{"ebgp", "ibgp", "confed"}[peer], 1)
+		}
 		if i < 2 {
 			o.sample(fmt.Sprintf("server peer=%d revised=%v faults=%s body=%s", peer, revised, m.faultNames(), m.hex()))
 		}
